@@ -297,7 +297,7 @@ def job_comb(cfg):
             res.guard("vectors_with_magnitudes_spread_over_1e15")
         if A.unprobed_len:
             res.guard("vectors_with_unprobed_intervals")
-        if rank % 997 == 1:
+        if not res.samples and len(A.breakpoints) >= 2 and min(w) <= 0:
             res.sample(dict(part="comb", weights=w, breakpoints=[float(b) for b in A.breakpoints],
                             counts_per_interval=[I["counts"] for I in A.intervals], robust_ties=A.ties))
     return res
@@ -987,7 +987,8 @@ def run(ctx):
     ctx.assume("weights are float64 letters taken as exact rationals; offsets closer than 2^-30 to a breakpoint (other than "
                "rounding-free exact ties) are outside the probed set: the float comparison there is decided by rounding")
     ctx.assume("intervals shorter than 4*2^-30 cannot be probed; in the exact mean they enter with the reference count "
-               "(total length per vector recorded under 'unprobed')")
+               "(vectors having such intervals are counted by the guard vectors_with_unprobed_intervals; their total length per "
+               "vector is below N*4*2^-30)")
     ctx.assume("virtual MPI: collectives matched by per-rank sequence number; a send's deposit is a left-mover (only enables "
                "others); eager and rendezvous completion are the two send behaviours explored; data copied at deposit")
     seed, tier = ctx.seed, ctx.tier
